@@ -118,13 +118,16 @@ func (f *Field) sortArgs() (errors []error) {
 	// and undeclared arguments are reported every time the field is resolved.
 	// Reflected methods are called with the arguments in the order of the
 	// field definition, see formReflectArgs().
-	return f.undeclaredArgs()
+	return f.undeclaredArgs(f.ConType)
 }
 
 // undeclaredArgs returns an error for each argument not declared by the field
-// definition of the container object type.
-func (f *Field) undeclaredArgs() (errors []error) {
-	if ot, _ := f.ConType.(*Object); ot != nil {
+// definition of the container object type. The container type is given since
+// one field of a request can be resolved on objects of more than one type,
+// the members of a list of an interface or union type, and the field
+// definitions of those types need not declare the same arguments.
+func (f *Field) undeclaredArgs(con Type) (errors []error) {
+	if ot, _ := con.(*Object); ot != nil {
 		if fd := ot.fields.get(f.Name); fd != nil {
 			for _, av := range f.Args {
 				if av != nil && fd.getArg(av.Arg) == nil {
